@@ -1,7 +1,7 @@
 from checks import pipeseq as ps
 
 CLAIM = {
-    "text": "Bounded model checking of real linear pipes (idem, skip, htons, setflowdef, setattr, probe_uref, delay, match_attr, null; "
+    "text": "Bounded model checking of real linear pipes (idem, skip, htons, setflowdef, setattr, probe_uref, delay, match_attr, null, plus a pass-through pipe assembled in the harness from the real helper macros that rebuilds its flow definition the way upipe_audio_merge / upipe_play / upipe_sync do; "
             "upipe_helper_output / helper_urefcount / helper_void as expanded in each) under every listed sequence of set_flow_def "
             "(two valid definitions and an invalid one) / set_output (two sinks, NULL) / input / flush / sink-starts-rejecting / "
             "sink-accepts-again, then release. Online monitors in the recording probe and sinks assert: READY is the first non-log event, "
@@ -27,14 +27,15 @@ def build(tier):
         plan = [(1, [p + t for p in pre for t in tail1] + [pre[0] + t for t in tail2] +
                     ps.seqs([0, 1, 3, 4, 6, 8], 3, first=(0, 3), last=(6,))),
                 (2, [pre[0] + t for t in tail1] + ps.seqs([0, 1, 3, 5, 6, 8], 3, last=(6,), must=(3,))),
-                (4, [pre[1] + t for t in tail1])]
+                (4, [pre[1] + t for t in tail1]),
+                (10, [p + t for p in pre for t in ([10, 6], [10, 10, 6], [8, 10, 6], [10, 4, 6], [4, 10, 6], [1, 10, 6], [10, 9, 6])] + [[0, 10, 3, 6], [3, 10, 0, 6]])]
     else:
         full = ps.seqs([0, 1, 2, 3, 4, 5, 6, 8, 9], 4, first=(0, 3), must=(6,)) + \
             ps.seqs([0, 1, 3, 4, 5, 6, 8, 9], 5, first=(0,), last=(6,), must=(3,), min_count={6: 2})
         short = ps.seqs([0, 1, 2, 3, 4, 5, 6, 7, 8], 4, first=(0, 3), last=(6,), must=(0, 3))
         deep = [p + t for p in pre for t in tail1 + tail2]
         plan = [(1, full + deep)] + [(p, short + [q + t for q in pre for t in tail1]) for p in (2, 3, 4, 5, 6, 7, 9)] + \
-            [(8, ps.seqs([0, 1, 2, 6, 7], 3, must=(6,)))]
+            [(8, ps.seqs([0, 1, 2, 6, 7], 3, must=(6,))), (10, [p + [x, y, 6] for p in pre for x in (0, 1, 3, 4, 5, 6, 8, 9, 10) for y in (1, 4, 6, 8, 10)] + [[0, 10, 3, 6], [3, 10, 0, 6]])]
     for pipe, sq in plan:
         for i, ops in enumerate(sq):
             qs.append(ps.query("C04", pipe, ops, timeout=280 if quick else 900, sample=(i % 40 == 5), replay=(i % 60 == 5),
